@@ -1703,6 +1703,22 @@ where
         self.keep = true;
     }
 
+    /// Keep the subscription in the table after a report that turned out empty and
+    /// was therefore *not sent* (nothing it selects had changed and its liveness
+    /// report was not due yet).
+    ///
+    /// The watermarks advance - the pending changes / events were examined and do
+    /// not concern this subscription - but the last-report timestamp does not: the
+    /// subscriber received nothing, so both the liveness deadline
+    /// ([`Subscription::report_due_at`]) and the expiry ([`Subscription::is_expired`])
+    /// must keep measuring from the last report that really went out. Otherwise
+    /// changes to attributes the subscription does NOT select, arriving more often
+    /// than `max_int / 2`, would postpone its liveness report forever.
+    pub fn set_keep_not_sent(&mut self) {
+        self.next_reported_at = self.subscription().reported_at;
+        self.keep = true;
+    }
+
     /// Keep the subscription in the table after a *failed* send to the peer, so it
     /// retries — with a back-off, and without advancing its watermarks or its
     /// last-success timestamp.
